@@ -115,16 +115,50 @@ def drive(rec):
                      "_cell_length_c %.12f" % cr.unit_cell.c, "_cell_angle_alpha %.12f" % cr.unit_cell.alpha_deg,
                      "_cell_angle_beta %.12f" % cr.unit_cell.beta_deg, "_cell_angle_gamma %.12f" % cr.unit_cell.gamma_deg,
                      "loop_", "_symmetry_equiv_pos_site_id", "_symmetry_equiv_pos_as_xyz"]
-                L += ["%d %s" % (k + 1, str(op)) for k, op in enumerate(cr.space_group.symmetry_operations)]
+                # operations in the spellings other programs use (any term order, negative fractions such as z-1/4, decimals,
+                # upper case: the grammar of C11, harness/c11.py propose_spelling), coordinates as SHELXL-era files write them
+                # (no leading zero, a standard uncertainty in parentheses)
+                import random as _random
+                from harness.c11 import propose_spelling, rand_style
+                srng = _random.Random(len(labels) * 7919 + rec["number"])
+
+                def spell_op(op):
+                    code = int(op.integer_code)
+                    if srng.random() < 0.5:
+                        return "'%s'" % propose_spelling(code, [rand_style(srng) for _ in range(3)], srng.choice([",", ", "]))
+                    return str(op)
+
+                def spell_num(x):
+                    s_ = "%.12f" % x
+                    if srng.random() < 0.5 and abs(x) < 1:
+                        s_ = s_.replace("0.", ".", 1)
+                    if srng.random() < 0.3:
+                        s_ += "(%d)" % srng.randint(1, 9)
+                    return s_
+                cr0 = cr
+                L += ["%d %s" % (k + 1, spell_op(op)) for k, op in enumerate(cr.space_group.symmetry_operations)]
                 L += ["loop_", "_atom_type_symbol", "_atom_type_description"] + ["%s %sdesc" % (x, x) for x in sorted(set(syms))]
                 L += ["loop_", "_atom_site_label", "_atom_site_type_symbol", "_atom_site_fract_x", "_atom_site_fract_y",
                       "_atom_site_fract_z", "_atom_site_occupancy"]
-                L += ["%s %s %.12f %.12f %.12f %.12f" % (labels[k], syms[k], au.positions[k][0], au.positions[k][1],
-                                                          au.positions[k][2], float(occ[k])) for k in range(len(au))]
+                L += ["%s %s %s %s %s %.12f" % (labels[k], syms[k], spell_num(au.positions[k][0] - (1 if k % 2 else 0)),
+                                                spell_num(au.positions[k][1]), spell_num(au.positions[k][2]), float(occ[k]))
+                      for k in range(len(au))]
                 if len(labels) > 1:
                     L += ["loop_", "_atom_site_aniso_label", "_atom_site_aniso_U_11"]
                     L += ["%s %.4f" % (labels[k], 0.01 * (k + 1)) for k in range(1, len(labels))]
                 cr = Crystal.from_cif_string("\n".join(L) + "\n")
+                # what was loaded is what the file says (the crystal the file was composed from)
+                import numpy as np
+                ops_same = (sorted(int(s.integer_code) for s in cr.space_group.symmetry_operations) ==
+                            sorted(int(s.integer_code) for s in cr0.space_group.symmetry_operations))
+                num_same = int(cr.space_group.international_tables_number) == int(cr0.space_group.international_tables_number)
+                pos = np.asarray(cr.asymmetric_unit.positions)
+                pos_same = pos.dtype.kind == "f" and pos.shape == np.asarray(cr0.asymmetric_unit.positions).shape
+                if pos_same:
+                    d_ = pos.astype(float) - np.asarray(cr0.asymmetric_unit.positions, dtype=float)
+                    pos_same = bool(np.max(np.abs(d_ - np.round(d_))) < 1e-9)
+                if not (ops_same and num_same and pos_same):
+                    raise ValueError("LoadedDiffersFromFile")
         except Exception as e:      # the first leg of the chain is itself a save + load: its failure is an observation
             t["write_exc"] = "provenance-" + prov + ":" + type(e).__name__
             return t
@@ -139,6 +173,8 @@ def drive(rec):
             t["write_exc"] = "ReferenceOffGrid"
             return t
         name = {"cif": "x.cif", "res": "x.res", "poscar": "POSCAR"}[fmt]
+        if rec.get("fname"):
+            name = rec["fname"]                    # the extension decides the format, whatever the rest of the name says
         path = os.path.join(d, name)
         if rec.get("titl") is not None:
             cr.properties["titl"] = rec["titl"]          # the title line of the files (may be empty)
@@ -227,6 +263,8 @@ def gen(args):
         u = (max(3.0, round(li)) + rng.choice([-1, 1]) * rng.choice([3e-6, 2e-5, 8e-5])) / math.sqrt(gram[i][i])
     rec = {"number": row["number"], "choice": row["choice"], "n": n, "gram": gram, "u": u, "asym": asym, "fmt": fmt, "via": via,
            "provenance": prov, "route": "vectors" if near_right else rng.choice(["params", "vectors"]),
+           "fname": (rng.choice([None, None, "POSCAR.cif", "CONTCAR.cif", "my.POSCAR.cif", "a b.cif", "X.CIF"]) if fmt == "cif" else
+                     rng.choice([None, None, "POSCAR.res", "run.1.res", "X.RES"]) if fmt == "res" else rng.choice([None, "CONTCAR"])),
            "written_before": rng.random() < 0.4, "titl": rng.choice([None, None, None, "", " ", "phase II, 100 K", "x"])}
     if fmt == "poscar" and rng.random() < 0.4:
         # a POSCAR stores lattice vectors: the crystal may hold them in any orientation
